@@ -204,6 +204,10 @@ impl Ev {
         self.inconclusive.lock().unwrap().push(why.to_string());
     }
 
+    pub fn known_hits(&self) -> usize {
+        self.known_hit.lock().unwrap().len()
+    }
+
     pub fn violations(&self) -> usize {
         self.violations.lock().unwrap().len()
     }
